@@ -8,6 +8,7 @@ import SlipVerif.Driver.Util
      (defun f (p* [&optional (o int)*] [&key (k int)*] [&aux (x expr)*]) body)
      | (defun-in ((c expr)*) f (lambda-list) body)     = (let ((c expr)*) (defun f …))
      | (undef f) | (again j) | expr
+     | (defvar x expr) | (defparameter x expr) | (setq x expr)      top-level forms only (global variables)
      function names may be spelled in any letter case and with a package prefix (pkg::name)
      expr = int | var | :kw | (+ a b) (- a b) (* a b) (< a b) (= a b) | (if c t e)
           | (let ((x v)) b) | (let* ((x v)*) b) | (f arg*)
@@ -192,6 +193,9 @@ def formOf : SExp → Option Form
     | some bs, some (sig, aux), some b => some (.defun f bs ⟨sig, aux, b, []⟩)
     | _, _, _ => none
   | .list [.atom "undef", .atom f] => some (.undef f)
+  | .list [.atom "defvar", .atom x, e] => (exprOf e).map (.setvar .defvar x)
+  | .list [.atom "defparameter", .atom x, e] => (exprOf e).map (.setvar .defparameter x)
+  | .list [.atom "setq", .atom x, e] => (exprOf e).map (.setvar .setq x)
   | .list [.atom "again", .atom j] => j.toNat?.map .again
   | x => (exprOf x).map .expr
 
@@ -223,7 +227,7 @@ def handle (entry : String) (args : List String) : String :=
     | some fuel, some forms =>
       let outs :=
         if entry == "run" then some (runC fuel Store.empty [] forms)
-        else if entry == "direct" then some (run fuel [] [] forms)
+        else if entry == "direct" then some (run fuel [] [] [] forms)
         else none
       match outs with
       | none => "bad-request entry"
